@@ -114,33 +114,6 @@ func verifC03Health(eps []*Epoch) (healthyHome, anyFault bool) {
 	return confirmed && !confirmedFaulty, anyFault
 }
 
-// C03.sigsearch — the real MultiEpoch.findEpochNumberFromSignature (behind JSON-RPC getTransaction,
-// gRPC GetTransaction and /api/v1/sig-to-cid) with several epochs, every schedule of the per-epoch
-// jobs, index false hits and failing index reads:
-//   - an epoch is named only if its own pre-filter answered yes, hence only if it archives the
-//     signature (never on the strength of the keyless index alone);
-//   - ErrNotFound only if no loaded epoch archives the signature;
-//   - a signature archived in an epoch whose reads all succeed is found, whatever the other epochs do.
-func VerifC03SigSearch() {
-	ne := verifParam("epochs", 2)
-	multi, eps := verifC03Multi(ne, 0, 1+verifChoice("ntxs", verifParam("maxtxs", 1)))
-	q := verifC03Sig("sig")
-	num, err := multi.findEpochNumberFromSignature(context.Background(), q)
-	healthyHome, _ := verifC03Health(eps)
-	anyArchived := verifC03SigArchived(eps, q)
-	if err == nil {
-		e := multi.epochs[num]
-		verifAssert(e != nil, "C03.sigsearch: the search names an epoch that is not loaded")
-		verifAssert(verifC03ArchivedIn(e, q) == 1, "C03.sigsearch: the search names an epoch that does not archive the signature")
-	} else {
-		if errors.Is(err, ErrNotFound) {
-			verifAssert(anyArchived == 0, "C03.sigsearch: not-found for a signature that a loaded epoch archives")
-		}
-		verifAssert(!healthyHome, "C03.sigsearch: a signature archived in an epoch whose index reads all succeeded is not found")
-	}
-	verifReach("end")
-}
-
 // C03.grpctxf — the same configuration end to end through the real gRPC MultiEpoch.GetTransaction:
 // never a transaction with another signature; a signature no epoch archives is answered with an error
 // (NotFound when no read failed); a signature archived in an epoch whose reads all succeed is served
